@@ -13,7 +13,13 @@ type ObjectResolver struct {
 	visited      map[int]bool // Cycle detection
 	maxDepth     int          // Maximum recursion depth
 	currentDepth int          // Current recursion depth
+	values       int          // Values expanded by the current top-level call
 }
+
+// maxValues bounds the values one top-level call expands. Objects that are
+// referenced from several places are expanded at each of them, so a small
+// file can describe a tree of any size
+const maxValues = 1 << 20
 
 // ObjectReader interface allows the resolver to work with any reader
 type ObjectReader interface {
@@ -65,6 +71,12 @@ func (r *ObjectResolver) resolve(obj core.Object, deep bool) (core.Object, error
 	// while still detecting circular references within a single resolution tree
 	if r.currentDepth == 0 {
 		r.visited = make(map[int]bool)
+		r.values = 0
+	}
+
+	r.values++
+	if r.values > maxValues {
+		return nil, fmt.Errorf("object expands to more than %d values", maxValues)
 	}
 
 	// Check depth limit
